@@ -21,6 +21,7 @@ git -C /repo worktree remove --force "$WT"
 mkdir -p seeded/$ID; cp "$SRC/patch.diff" "$SRC/demo.rs" seeded/$ID/; cp "$SRC/notes.md" seeded/$ID/notes.md 2>/dev/null
 RESULTS=""
 if [ "$CONF" = yes ] && [ -z "${CONFIRM_ONLY:-}" ]; then
+  EVSAVE=$(mktemp -d); cp -a evidence/. "$EVSAVE"/ 2>/dev/null   # evidence must describe the unchanged tree
   git -C /repo apply "$SRC/patch.diff" || { echo "cannot apply to /repo"; exit 2; }
   for c in $CHECKS; do
     OUT=$(bin/check $c quick 2>&1); EC=$?
@@ -30,6 +31,7 @@ if [ "$CONF" = yes ] && [ -z "${CONFIRM_ONLY:-}" ]; then
     RESULTS="$RESULTS{\"check\":\"$c\",\"exit\":$EC,\"violation_lines\":$NV,\"clauses\":\"$CL\"},"
   done
   git -C /repo checkout -- . ; git -C /repo status --short | head -3
+  cp -a "$EVSAVE"/. evidence/ 2>/dev/null; rm -rf "$EVSAVE"
 fi
 python3 - "$ID" "$CONF" "$DW" "$DP" "$SU" "$PASSED" "[${RESULTS%,}]" <<'PY'
 import json,sys,os,re
